@@ -1,5 +1,7 @@
 import MesonModel.Options.InvOps
 import MesonModel.Options.MergeLemmas
+import MesonModel.Options.TopLemmas
+import MesonModel.Options.WfOps
 /-
 C07 — option values resolve by the documented precedence and are always valid.
 Statements over the model `MesonModel.Options` (options.py:356-640, 773-1417; cmdline.py:222-241).
@@ -129,6 +131,74 @@ theorem dict_binding_is_lookup (k : Key) (d : Dict) (h : (d.map Prod.fst).Nodup)
 example : mergeSub [] [] "sub".toList [] [(⟨"o".toList, none, .host⟩, .str "x".toList)] [] [] =
     .ok [(⟨"o".toList, some "sub".toList, .host⟩, .str "x".toList)] := by rfl
 
+/-! ## top-level precedence through the whole call, generally
+
+`Good k id s o` (Options/TopLemmas.lean) says: option `k` exists in `s` with object `id`, which currently is
+`o`, is not yielding, has no override, is not a builtin (no path sanitisation), and no option of another
+name shares its object (`OwnObject`; objects are allocated per key). -/
+
+/-- `toplevel_precedence`: **for every store, every option class, all values and arbitrary dicts** (any other
+options, valid or not, `buildtype`, subproject and build-machine keys, pending options; only `prefix` entries
+and other variants of the same name are excluded): if `initialize_from_top_level_project_call` completes, the
+option holds the cleaned value of the first source that gives it in the order command line, machine file,
+`project(default_options)`, and otherwise what it held before (its declared default).  All 2^4 subsets of the
+sources are instances (each `alast k d` is `some _` or `none`). -/
+theorem toplevel_precedence (k : Key) (id : Nat) (s s' : Store) (o : Obj) (pdo cmd mf : Dict)
+    (hm : k.machine = .host) (hs : k.sub = none)
+    (hn : (k.name == sPrefix) = false) (hbt : (k.name == sBuildtype) = false)
+    (hd : k.name ≠ sDebug ∧ k.name ≠ sOptimization)
+    (hnp : (Tables.nopfxTable.map (·.1)).contains k.name = false)
+    (g : Good k id s o)
+    (h1 : NoPrefix pdo) (h2 : NoPrefix cmd) (h3 : NoPrefix mf)
+    (hp : ∀ kv ∈ pdo, kv.1 = k ∨ kv.1.name ≠ k.name)
+    (hc : ∀ kv ∈ cmd, kv.1 = k ∨ kv.1.name ≠ k.name)
+    (hf : ∀ kv ∈ mf, kv.1 = k ∨ kv.1.name ≠ k.name)
+    (hrun : initTop pdo cmd mf s = (.ok (), s')) :
+    getValueFor s' k = .ok
+      (match ofirst (alast k cmd) (ofirst (alast k mf) (alast k pdo)) with
+       | some v => cleaned o.kind v
+       | none => o.value) :=
+  initTop_value k id s s' o pdo cmd mf hm hs hn hbt hd hnp g h1 h2 h3 hp hc hf hrun
+
+/-- heap-id distinctness is an invariant of every call sequence: in every reachable store each key has its
+own object, inside the heap -/
+theorem object_table_wellformed (ops : List Op) (cross : Bool) : Wf (run (Store.new cross) ops) :=
+  wf_run ops _ (wf_new cross)
+
+/-- `toplevel_precedence` for every store the API can produce: the `OwnObject` hypothesis is discharged by the
+invariant, what remains are the facts about option `k` itself -/
+theorem toplevel_precedence_reachable (ops : List Op) (cross : Bool) (k : Key) (id : Nat) (s' : Store) (o : Obj)
+    (pdo cmd mf : Dict)
+    (hm : k.machine = .host) (hs : k.sub = none)
+    (hn : (k.name == sPrefix) = false) (hbt : (k.name == sBuildtype) = false)
+    (hd : k.name ≠ sDebug ∧ k.name ≠ sOptimization)
+    (hnp : (Tables.nopfxTable.map (·.1)).contains k.name = false)
+    (hopt : alookup k (run (Store.new cross) ops).options = some id)
+    (hobj : (run (Store.new cross) ops).heap[id]? = some o)
+    (hnb : (run (Store.new cross) ops).isBuiltin k = false)
+    (haug : alookup k (run (Store.new cross) ops).augments = none)
+    (hny : o.yielding = false)
+    (h1 : NoPrefix pdo) (h2 : NoPrefix cmd) (h3 : NoPrefix mf)
+    (hp : ∀ kv ∈ pdo, kv.1 = k ∨ kv.1.name ≠ k.name)
+    (hc : ∀ kv ∈ cmd, kv.1 = k ∨ kv.1.name ≠ k.name)
+    (hf : ∀ kv ∈ mf, kv.1 = k ∨ kv.1.name ≠ k.name)
+    (hrun : initTop pdo cmd mf (run (Store.new cross) ops) = (.ok (), s')) :
+    getValueFor s' k = .ok
+      (match ofirst (alast k cmd) (ofirst (alast k mf) (alast k pdo)) with
+       | some v => cleaned o.kind v
+       | none => o.value) :=
+  toplevel_precedence k id _ s' o pdo cmd mf hm hs hn hbt hd hnp
+    ⟨hopt, hobj, (object_table_wellformed ops cross).ownObject hopt, hnb, haug, hny⟩ h1 h2 h3 hp hc hf hrun
+
+/-- the frame lemma it rests on: a `set_user_option` for an option of another name — whatever it does: write
+an object, write an override, expand `buildtype`, reset the prefix directories, park a pending value, raise —
+leaves everything `get_value_for k` depends on unchanged -/
+theorem set_user_option_frame (k : Key) (id : Nat) (key : Key) (v : Val) (first : Bool) (s : Store)
+    (hname : key.name ≠ k.name) (hnp : (Tables.nopfxTable.map (·.1)).contains k.name = false)
+    (hd : key.name = sBuildtype → k.name ≠ sDebug ∧ k.name ≠ sOptimization)
+    (hown : OwnObject k.name id s) : SameObs k id s (setUserOption key v first s).2 :=
+  (Fr.setUserOption k id key v first hname hnp hd).run s hown
+
 /-! ### through the whole state machine, for every subset of the sources
 
 The scenarios below run the *complete* model (`add_system_option` / `add_project_option`,
@@ -165,6 +235,18 @@ def subScenario (b : Fin 256) : Option Val :=
   let s := run (Store.new false) [.addSystem kOpt comboSpec, .initTop pdoTop cmd mf,
     .initSub "sub".toList (src (bit 5) kOpt 6) (src (bit 1) kOpt 2) cmd mf]
   (getValueFor s kSub).toOption
+
+/-- the hypotheses of `toplevel_precedence` are satisfiable (and its conclusion is what the scenario shows) -/
+example : Good kOpt 0 (run (Store.new false) [.addSystem kOpt comboSpec])
+    { kind := comboSpec.kind, value := cval 0, default := cval 0, yielding := false, readonly := false, parent := none } := by
+  refine ⟨by rfl, by rfl, ?_, by decide, by rfl, rfl⟩
+  intro key i h hn
+  have hopt : (run (Store.new false) [.addSystem kOpt comboSpec]).options = [(kOpt, 0)] := by rfl
+  rw [hopt] at h
+  simp only [alookup] at h
+  split at h
+  · next e => exact absurd (by rw [← e]) hn
+  · cases h
 
 /-- `toplevel_precedence` on all 2^3 subsets of the three sources (the fourth source, the declared default, is
 always present), for a builtin-like system option and for a top-level project option -/
